@@ -1056,6 +1056,12 @@ fn wrap_stream_with_websockets<S>(stream : S, endpoint: String, scheme: &str, we
     Ok(ws_stream)
 }
 
+/// Verification hook: exposes the private websocket stream adapter over an already-established websocket.
+#[cfg(all(feature = "verif", feature = "threaded-websockets"))]
+pub fn verif_wrap_websocket<S>(websocket: tungstenite::protocol::WebSocket<S>) -> impl Read + Write where S : Read + Write {
+    WebsocketStreamWrapper::new(websocket)
+}
+
 fn apply_proxy_connect_to_stream<T>(mut stream : T, http_connect_endpoint: Endpoint) -> GneissResult<T> where T : Read + Write {
 
     debug!("apply_proxy_connect_to_stream - writing CONNECT request to connection stream");
